@@ -54,8 +54,9 @@ def main():
     if confirmed:
         dst = os.path.join(V, "seeded", name)
         os.makedirs(dst, exist_ok=True)
-        shutil.copy(os.path.join(src, "patch.diff"), dst)
-        shutil.copy(os.path.join(src, "demo.py"), dst)
+        for f in ("patch.diff", "demo.py"):
+            if os.path.abspath(os.path.join(src, f)) != os.path.abspath(os.path.join(dst, f)):
+                shutil.copy(os.path.join(src, f), dst)
         meta.update({"breaks_property": pid, "verification": res,
                      "what_was_run": "tools/seeded.py: scratch worktree of /repo HEAD, git apply, full pytest suite, demo with/without the change, ./check %s with VERIF_REPO=<patched worktree>" % " ".join([pid] + extra)})
         json.dump(meta, open(os.path.join(dst, "meta.json"), "w"), indent=1)
